@@ -111,7 +111,9 @@ def raw_parse(p, text, **kw):
 
 
 def sym_info(s):
-    return [bool(s.is_term), bool(s.is_term and s.filter_out), bool((not s.is_term) and s.name.startswith('_'))]
+    # filtered: an anonymous literal occurrence (only lark's own flag tells it from a named use of the same terminal) or — by the documented rule, read from the
+    # *name*, not from the compiled flag — any terminal whose name starts with a single underscore (`__ANON_n` are lark's names for anonymous regexps, which are kept; a `!` rule / keep_all_tokens is handled by keepAll)
+    return [bool(s.is_term), bool(s.is_term and (s.filter_out or (s.name.startswith('_') and not s.name.startswith('__')))), bool((not s.is_term) and s.name.startswith('_'))]
 
 
 def to_forest(raw, p, maybe_placeholders):
